@@ -106,7 +106,7 @@ Theorem C02_amount_aliases_refused : forall K cr d s,
 Proof. exact verify_bid_amount_aliases_refused. Qed.
 Print Assumptions C02_amount_aliases_refused.
 
-(* Round trip.  Premise on the library (explicit, not an axiom): what SignHash answers for a
+(* Round trip.  Premise on the library (an explicit premise of the statement): what SignHash answers for a
    hash is 65 bytes r||s||v with v in {0,1} from which the node's key pk is recovered and whose
    r||s passes the low-S check.  Then every bid built by ConstructSignedBid verifies to the
    node's own address ... *)
